@@ -90,6 +90,8 @@ type world struct {
 	// sysJudge, when set, judges a storage diff of the block-hash registry (contract 0x1) carried
 	// by the entry for block n; only the reader's empty placeholder block may carry one
 	sysJudge func(n uint64, m map[felt.Felt]*felt.Felt) error
+	// counts of what the audit machinery exercised (replay / poller engines only: one goroutine)
+	counts map[string]int
 	// shape toggles the degenerate encodings of "nothing": nil vs empty maps / slices
 	shape uint64
 }
@@ -98,7 +100,7 @@ func newWorld(tb tables, seed int64) *world {
 	g := chainkit.NewGen(seed*7919 + 17)
 	w := &world{tb: tb, contract: map[byte]*felt.Felt{}, skey: map[byte]*felt.Felt{}, clsVal: map[int]*felt.Felt{},
 		clsValDef: map[int]core.ClassDefinition{}, class: map[string]*classInfo{}, classOf: map[felt.Felt]string{},
-		txOf: map[felt.Felt]int{}, deployKey: "h2"}
+		txOf: map[felt.Felt]int{}, deployKey: "h2", counts: map[string]int{}}
 	w.contract['1'], w.contract['2'] = g.Felt(), g.Felt()
 	w.skey['1'], w.skey['2'] = g.Felt(), g.Felt()
 	for v := 1; v <= 2; v++ {
